@@ -1,0 +1,5 @@
+//go:build !verif
+
+package jhttp
+
+func verifPoint(string) {}
